@@ -59,7 +59,7 @@ Splits(els, j, w, i) ==       \* all value tuples for els[j..] over w[i..]
 P_Splits(els, w) == Splits(els, 1, w, 1)
 
 (* layer I: first split in backtracking order; <<"none">> if there is none *)
-None == <<"none">>
+None == << <<"none">> >>
 RECURSIVE Engine(_, _, _, _)
 RECURSIVE TryLens(_, _, _, _, _, _)
 Engine(els, j, w, i) ==
